@@ -96,6 +96,23 @@ CLAIMED = {
         engine='sqlvc',
         design_ref='7/C10, 2.3',
     ),
+    'C04': dict(
+        text='Every procedure assigning jobs.state (closed-world scan) is executed symbolically: every point and set-oriented rewrite of jobs.state is an allowed lifecycle transition for all rows and arguments, '
+        'terminal states are absorbing, the tally statement of mark_job_complete runs exactly on the non-terminal->terminal paths, touches exactly anc*(group) and adds one completed plus exactly one outcome matching new_state; '
+        'terminal(new_state) is discharged at the Python call sites; first reads of written tables take a lock.',
+        note=COMMON_NOTE + 'Assumed: each procedure call is atomic (serialisable isolation; justified by the lock-discipline obligations where stated); MySQL NULL/boolean semantics as encoded in vc/sqlvc.py; integer column widths sufficient; SQL cannot be executed in this sandbox so counter-models are rows (VIOLATION ... no-failing-input-found). ' + "Invariant N' of C05 is a hypothesis of the children statement; commit_batch_update is outside the subset (GROUP BY derived tables) and listed undecided.",
+        technique='procedure contracts (transition relation) on the real SQL text, sqlvc -> z3',
+        engine='sqlvc',
+        design_ref='7/C04, 2.3',
+    ),
+    'C07': dict(
+        text='is_job_group_cancelled / is_job_cancelled / is_batch_cancelled proved equal to the spec predicates over the tables; schedule_job, mark_job_creating, mark_job_started move a job to Creating/Running only when the spec '
+        'predicate says not cancelled and always answer with a result row; jobs_before_insert signals exactly for cancelled groups; cancel_job_group / cancel_batch are idempotent and change grp_cancelled exactly on the subtree.',
+        note=COMMON_NOTE + 'Assumed: each procedure call is atomic (serialisable isolation; justified by the lock-discipline obligations where stated); MySQL NULL/boolean semantics as encoded in vc/sqlvc.py; integer column widths sufficient; SQL cannot be executed in this sandbox so counter-models are rows (VIOLATION ... no-failing-input-found). ' + 'Structural invariant A1 of job_group_self_and_ancestors is a precondition. Python-side guards (front end, canceller, scheduler queries) are listed undecided.',
+        technique='function/procedure contracts against spec predicates on the real SQL text, sqlvc -> z3',
+        engine='sqlvc',
+        design_ref='7/C07, 2.3',
+    ),
 }
 
 NOT_YET = 'not yet brought within the verifier\'s reach in this build (planned in DESIGN.md section 7); no claim is made'
